@@ -302,6 +302,8 @@ class _run:
         0: LoopContract(invariant=_accept_inv,
                         havoc_heap=dict(team_names=TeamNames, threads=TraceReset())),
         1: LoopContract(invariant=_boards_inv,
+                        havoc=dict(play_history=Opt(PHShape), taken_trick_num=Opt(Int(0)),
+                                   score=Int()),
                         havoc_heap=dict(game_log_writer=WriterLoopShape, **QUEUES_RESET),
                         body_ensures=dict(record_of_the_board=_board_record,
                                           configured_board_in_order=_board_is_the_configured_one)),
